@@ -625,9 +625,9 @@ func (tr *Tr) evalQuant(env *CEnv, q *CQuant) (Value, types.Type) {
 	body := tr.evalBool(n, q.Body)
 	rng := sAnd(ranges...)
 	pat := ""
-	if len(q.Trig) > 0 {
+	for _, grp := range q.Trig {
 		var ps []string
-		for _, te := range q.Trig {
+		for _, te := range grp {
 			tv, tt := tr.evalC(n, te)
 			switch y := tr.rval(n, tv, tt).(type) {
 			case Sc:
@@ -636,7 +636,7 @@ func (tr *Tr) evalQuant(env *CEnv, q *CQuant) (Value, types.Type) {
 				panic(subsetErr("trigger must be scalar"))
 			}
 		}
-		pat = " :pattern (" + strings.Join(ps, " ") + ")"
+		pat += " :pattern (" + strings.Join(ps, " ") + ")"
 	}
 	tr.fresh++
 	qid := fmt.Sprintf(" :qid Q%d_%s", tr.fresh, q.Binders[0].Name)
